@@ -6,7 +6,7 @@ from __future__ import annotations
 import ast
 from typing import Any
 
-from .bitabs import (AScaled, ASumVec, PartialRaise, _Raises, fresh, AFin, fin_lift, fin_atoms, mkfin, MAX_FIN_ATOMS, ABits, ACond, AEnum, AFn, AInt, AObj, AOpq, ATable, AView, Abort, F, OB, ONE, ZERO, PathRaise,
+from .bitabs import (AExt, AScaled, ASumVec, PartialRaise, _Raises, fresh, AFin, fin_lift, fin_atoms, mkfin, MAX_FIN_ATOMS, ABits, ACond, AEnum, AFn, AInt, AObj, AOpq, ATable, AView, Abort, F, OB, ONE, ZERO, PathRaise,
                      cbit, _freeze)
 from .model import (BitArr, ClassInfo, ClassRef, EnumMember, FuncInfo, FuncRef, ModRef, NPArr, Rec, Unfoldable, SAFE)
 
@@ -14,7 +14,7 @@ from .model import (BitArr, ClassInfo, ClassRef, EnumMember, FuncInfo, FuncRef, 
 
 
 def is_abs(v):
-    return isinstance(v, (ABits, AInt, AEnum, AObj, ATable, AView, ACond, AOpq, AFn, AFin, ASumVec)) or \
+    return isinstance(v, (AExt, ABits, AInt, AEnum, AObj, ATable, AView, ACond, AOpq, AFn, AFin, ASumVec)) or \
         (isinstance(v, tuple) and any(is_abs(x) for x in v))
 
 
@@ -125,7 +125,7 @@ def binop(fr, op, l, r, node):
             return BIN[type(op)](l, r)
         v = try_lift(BIN[type(op)], l, r)
         if v is TOO_WIDE:
-            raise Abort("finite-function arithmetic too wide")
+            return fn_int(fr, "arith:" + type(op).__name__, [l, r], 64)
         return v
     # sequence concatenation / repetition
     if isinstance(op, ast.Add):
@@ -289,6 +289,11 @@ def int_binop(fr, op, l, r, node):
         return AInt([A.bit(j) for j in range(k)] or [ZERO])
     if isinstance(op, ast.FloorDiv) and rc is not None and rc > 0 and rc & (rc - 1) == 0:
         return int_binop(fr, ast.RShift(), l, rc.bit_length() - 1, node)
+    if isinstance(op, ast.Mod) and rc is not None and rc > 0:
+        v = try_lift(lambda x, y: x % y, A, rc)
+        if v is not TOO_WIDE:
+            return v
+        return fn_int(fr, "mod", [A, rc], (rc - 1).bit_length())  # result < rc: fits that many bits
     from .model import BIN
     v = try_lift(BIN[type(op)], A, B)
     if v is not TOO_WIDE:
@@ -502,6 +507,8 @@ def getattr_(fr, base, attr, node):
     repo = I.repo
     if isinstance(base, AOpq):
         return I.opaque(f"attr {attr} of opaque")
+    if isinstance(base, AExt):
+        return AFn(base, attr)
     if isinstance(base, tuple) and len(base) == 3 and base[0] == "super":
         _, obj, cls = base
         ocls = obj.cls if isinstance(obj, (AObj, AEnum)) else cls
@@ -843,6 +850,9 @@ def apply(fr, f, args, kw, n):
         return I.construct(f.info, args, kw)
     if isinstance(f, AFn):
         return method(fr, f.base, f.name, args, kw, n)
+    if isinstance(f, AExt):
+        I.st.effects.append((f"{f.name}()", list(args), dict(kw), f"{fr.fi.qualname}:{n.lineno}"))
+        return I.opaque(f"result of {f.name}()")
     if isinstance(f, ModRef):
         return external(fr, f.name, args, kw, n)
     if f in BUILTINS:
@@ -1161,6 +1171,12 @@ def method(fr, base, name, args, kw, n):
     I = fr.I
     if name == "noop" and base is None:
         return None
+    if isinstance(base, AExt):
+        I.st.effects.append((f"{base.name}.{name}", list(args), dict(kw), f"{fr.fi.qualname}:{n.lineno}"))
+        r = base.results.get(name, AOpq)
+        if r is AOpq:
+            return I.opaque(f"result of {base.name}.{name}")
+        return r(args, kw) if callable(r) else r
     if isinstance(name, FuncInfo) and isinstance(base, Rec):
         return I.call(name, [base] + list(args), kw, base.cls)
     if isinstance(name, FuncInfo):
